@@ -305,7 +305,9 @@ class HObj:
         if fd.kind == "optset":
             return OptSetToken(z3.Select(A("isnone", B), self.id), z3.Select(A("set", SetSort), self.id))
         if fd.kind == "const":
-            return fd.default
+            per = st.ghost.get("const_fields", {})
+            k = (z3.simplify(self.id).sexpr(), field)
+            return per[k] if k in per else fd.default
         if fd.kind == "tok":
             return fd.default(z3.Select(A("v", I), self.id))
         raise Unsupported("field kind %s" % fd.kind)
@@ -353,8 +355,8 @@ class HObj:
             else:
                 raise Unsupported("store %r into token field %s" % (type(v), field))
         elif fd.kind == "const":
-            if v is not fd.default:
-                raise Unsupported("write of a different object to constant field %s" % field)
+            # reference field that is written once, by the constructor: kept per object identity
+            st.ghost.setdefault("const_fields", {})[(z3.simplify(self.id).sexpr(), field)] = v
         elif fd.kind == "tok":
             if v is None:
                 put("v", I, z3.IntVal(-1))
